@@ -43,6 +43,20 @@ def explore(ck, hb, sets, race=False):
     for j, rc, se in dead:
         why = "DATA RACE reported by the race detector" if "DATA RACE" in se else "process died"
         failing.append(({"docs": j["docs"], "goroutines": j["n"], "cache": j["cache"]}, why + ": " + se[-600:]))
+    # cold start: the concurrent compilations are the first ones of a fresh process (lazy initialisation is exercised concurrently);
+    # one document carries an invalid attribute so that the validation tables decide the result
+    bad_doc = sets[0][0].replace("<mj-button>", '<mj-button no-such-attribute="1">', 1)
+    for k in range(6 if not race else 10):
+        j = {"id": 0, "docs": [bad_doc] + sets[k % len(sets)][:2], "n": 8, "reps": 2, "cache": k % 2 == 1, "cold": True}
+        rc, r, se = vlib.harness(hb, "conc", [j], timeout=300)
+        if not r:
+            why = "DATA RACE reported by the race detector" if "DATA RACE" in se else "process died"
+            failing.append(({"docs": j["docs"], "goroutines": 8, "cache": j["cache"], "cold_start": True}, why + " (cold start): " + se[-600:]))
+            continue
+        ck.count(json.dumps(["cold", k, j["docs"]]), True, tags=["cold-start"])
+        if r[0]["contaminated"]:
+            failing.append(({"docs": j["docs"], "goroutines": 8, "cache": j["cache"], "cold_start": True, "first": r[0]["first"]},
+                            "cold start: %d of %d first concurrent renders of a fresh process differ from the solo result" % (r[0]["contaminated"], r[0]["runs"])))
     return failing
 
 
